@@ -206,8 +206,19 @@ func TestChecksum(t *testing.T) {
 				CompletionCode: ipmi.CompletionCode(a + nl),
 			}
 			body := make([]byte, (a+nl)%7)
+			if nl%4 == 0 {
+				// long bodies of large bytes: the sum wraps many times, whatever the
+				// word size an implementation adds in
+				body = make([]byte, 3+(a*5+nl)%78)
+			}
 			for i := range body {
 				body[i] = byte(a*7 + nl*13 + i*31)
+				if nl%8 == 0 {
+					body[i] |= 0x80
+				}
+				if nl%16 == 0 {
+					body[i] = 0xff - byte(i%3)
+				}
 			}
 			buf.Clear()
 			if err := gopacket.SerializeLayers(buf, serOpts, &m, gopacket.Payload(body)); err != nil {
@@ -224,6 +235,13 @@ func TestChecksum(t *testing.T) {
 			}
 			if w[len(w)-1] != ref.Checksum(w[3:len(w)-1]) {
 				fail(t, "TestChecksum", []int{a, nl}, fmt.Sprintf("checksum2 %#x, want %#x over % x", w[len(w)-1], ref.Checksum(w[3:len(w)-1]), w[3:len(w)-1]))
+			}
+			// and a correctly checksummed message of any length is accepted
+			if len(body) > 6 || (a+nl)%16 == 0 {
+				var d ipmi.Message
+				if err := d.DecodeFromBytes(append([]byte(nil), w...), gopacket.NilDecodeFeedback); err != nil && !(m.Function>>1 == 0x16 || m.Function>>1 == 0x17) {
+					fail(t, "TestChecksum", []int{a, nl}, fmt.Sprintf("correctly checksummed message of %d bytes rejected: %v", len(w), err))
+				}
 			}
 		}
 	}
